@@ -493,14 +493,25 @@ impl Axecutor {
         // Iterate all areas once and save the index of the area to resize
         let mut area_to_resize = None;
 
+        // The resized area [start_addr, new_end) must not wrap around the end of the address space
+        let new_end = start_addr as u128 + new_size as u128;
+        if new_end > 1u128 << 64 {
+            return Err(AxError::from(format!(
+                "Cannot resize section at address {start_addr:#x} to length {new_size}, as it would wrap around the end of the address space"
+            )));
+        }
+
         // Also make sure there's no overlapping area already defined, including code region
         for (i, area) in self.state.memory.iter().enumerate() {
             if start_addr == area.start {
+                // The area itself is not an obstacle
                 area_to_resize = Some(i);
+                continue;
             }
 
-            // Make sure the new length doesn't overlap with any other area after it
-            if start_addr + new_size > area.start {
+            // Make sure the new extent doesn't overlap with any other area
+            let area_end = area.start as u128 + area.length as u128;
+            if (start_addr as u128) < area_end && (area.start as u128) < new_end {
                 return Err(AxError::from(format!(
                     "Cannot resize section at address {:#x} to length {}, as it overlaps with another section starting at {:#x} (len={})",
                     start_addr, new_size, area.start, area.length
